@@ -49,6 +49,10 @@ where
     N: Fn(&Stats) -> bool + Sync,
     Z: Fn(&V) -> serde_json::Value + Sync,
 {
+    let cases = std::env::var("LSMV_CASES")
+        .ok()
+        .and_then(|s| s.parse().ok())
+        .unwrap_or(cases);
     let workers = workers().min(cases.max(1));
     let per = (cases + workers - 1) / workers;
     let start = Instant::now();
